@@ -3,7 +3,10 @@ error", not which numbers it carries)."""
 import re
 RULE = ("exhaustive: all shape pairs (h1,w1),(h2,w2) in 0..5 x 0..5 (1296) x 3 integer fillings for the checked "
         "product, one (quick) or four (thorough) operator forms per pair, dyadic float fillings, scalar forms on all "
-        "shapes, random law triples; non-trivial = the model's answer is a successful product with at least one "
+        "shapes, random law triples; every shared and every outer dimension 6..40, 1x1 factors next to large matrices, "
+        "large non-conforming pairs; element types i64, f64 and (values exact in the narrow type) i32, u8, f32; float scalar "
+        "multiply/divide by +-0, +-inf, NaN, subnormal, huge, tiny and non-dyadic scalars on entries of every magnitude; "
+        "float entries 2^-300..2^270 in products; laws also at f64/f32/i32 and for Arr2D::identity; non-trivial = the model's answer is a successful product with at least one "
         "entry (not an error, not an empty array); distinct = distinct request lines")
 
 def _norm(s):
